@@ -49,33 +49,98 @@ def ev(t, asg):
     return v if pol else (not v)
 
 
+_REL = {   # truth of a float comparison `a op b` under each possible relation of the pair
+    'lt': {'lt': True, 'eq': False, 'gt': False, 'un': False},
+    'le': {'lt': True, 'eq': True, 'gt': False, 'un': False},
+    'gt': {'lt': False, 'eq': False, 'gt': True, 'un': False},
+    'ge': {'lt': False, 'eq': True, 'gt': True, 'un': False},
+    'eq': {'lt': False, 'eq': True, 'gt': False, 'un': False},
+    'ne': {'lt': True, 'eq': False, 'gt': True, 'un': True},
+}
+_FLIP = {'lt': 'gt', 'gt': 'lt', 'eq': 'eq', 'un': 'un'}
+
+
+def _pair_of(a):
+    """(key, fn relation -> truth) for atoms that compare one pair of floats, else None"""
+    if a[0] == 'fcmp' and a[1] in _REL:
+        x, y = a[2], a[3]
+        if repr(x) <= repr(y):
+            return (x, y), (lambda rel, op=a[1]: _REL[op][rel])
+        return (y, x), (lambda rel, op=a[1]: _REL[op][_FLIP[rel]])
+    if a[0] == 'unord':
+        x, y = a[1], a[2]
+        key = (x, y) if repr(x) <= repr(y) else (y, x)
+        return key, (lambda rel: rel == 'un')
+    return None
+
+
 def _tables(terms, limit=14):
+    """atoms and the truth assignments to enumerate.  Comparisons of one and the same pair of floats are not
+    independent (exactly one of <, =, >, unordered holds): impossible combinations are not enumerated."""
     atoms = []
     for t in terms:
         atoms_of(t, atoms)
     if len(atoms) > limit:
         return None, None
-    return atoms, itertools.product([False, True], repeat=len(atoms))
+    groups = {}
+    free = []
+    for i, a in enumerate(atoms):
+        pk = _pair_of(a)
+        if pk is None:
+            free.append(i)
+        else:
+            groups.setdefault(pk[0], []).append((i, pk[1]))
+    parts = []      # each: list of dicts index -> value
+    for i in free:
+        parts.append([{i: False}, {i: True}])
+    for key, members in groups.items():
+        if len(members) == 1:
+            i = members[0][0]
+            parts.append([{i: False}, {i: True}])
+            continue
+        alts = []
+        seen = set()
+        for rel in ('lt', 'eq', 'gt', 'un'):
+            d = {i: f(rel) for i, f in members}
+            k = tuple(sorted(d.items()))
+            if k not in seen:
+                seen.add(k)
+                alts.append(d)
+        parts.append(alts)
+
+    def gen():
+        for combo in itertools.product(*parts):
+            vals = [False] * len(atoms)
+            for d in combo:
+                for i, v in d.items():
+                    vals[i] = v
+            yield tuple(vals)
+    return atoms, gen()
 
 
-def implies(g, h):
-    """does g ⇒ h hold for every truth assignment of the atoms?  None when there are too many atoms."""
-    atoms, table = _tables([g, h])
+def implies(g, h, assume=None):
+    """does g ⇒ h hold for every (consistent) truth assignment of the atoms (that satisfies `assume`)?
+    None when there are too many atoms."""
+    atoms, table = _tables([g, h] + ([assume] if assume is not None else []))
     if atoms is None:
         return None
     for vals in table:
         asg = dict(zip(atoms, vals))
+        if assume is not None and not ev(assume, asg):
+            continue
         if ev(g, asg) and not ev(h, asg):
             return False
     return True
 
 
-def equivalent(g, h):
-    atoms, table = _tables([g, h])
+def equivalent(g, h, assume=None):
+    atoms, table = _tables([g, h] + ([assume] if assume is not None else []))
     if atoms is None:
         return None
     for vals in table:
         asg = dict(zip(atoms, vals))
+        if assume is not None and not ev(assume, asg):
+            continue
         if ev(g, asg) != ev(h, asg):
             return False
     return True
